@@ -10,7 +10,7 @@ PRESENT_PROOF = """proof {
     assert(ks.to_set() =~= cproof@.dom());
 }"""
 UNIT = Unit(
-    name="confirm",
+    name="confirm", lemma_obs=['lemma_present_monotone', 'lemma_present', 'lemma_two_thirds'],
     prelude=["core.rs", "raw.rs", "iter.rs", "crypto.rs", "state_abs.rs"],
     lemmas=["sums.rs", "coinsview.rs", "stakes.rs", "confirm.rs", "tips.rs", "header.rs", "seal_opaque.rs"],
     items=[
